@@ -57,7 +57,9 @@ def build(tier, repo):
             "guard on the buffer's length), offsets rejected when negative, leading dimensions checked, "
             "locally allocated arrays at least as large as the footprint; (R2) the guards do not reject "
             "calls the footprint allows; (R5) every kernel of misc_solvers checks the type and length of "
-            "its matrix arguments; (R6) every PyArg_Parse* format unit is stored into a variable of the "
+            "its matrix arguments; (R9) every integer division/modulo has a divisor excluded from zero by a dominating "
+            "test, or is an instance of a hand-confirmed data invariant whose precondition is re-checked; (R10) the real and complex "
+            "sparse kernels address their arrays with the same index expressions; (R6) every PyArg_Parse* format unit is stored into a variable of the "
             "matching C type and the keyword/format/address tables have equal length; (R7) the "
             "length/index macros have their reference definitions. NOT decided: overflows inside "
             "BLAS/LAPACK/SuiteSparse, libc allocation failures; sparse.c's internal index arithmetic (C16)."),
@@ -159,6 +161,21 @@ def build(tier, repo):
                     r8.violation(key, where,
                                  "accumulator `%s` is updated from the sibling accumulator `%s`: its running %s only reflects the last entry"
                                  % (v, u, kind.lower()), "%s = %s(%s, ..)" % (v, kind, v), "%s(%s, ..)" % (kind, u))
+
+    r9 = chk.rule("C19-R9", "no integer division or modulo by a value that a dominating test does not exclude from being zero",
+                  "the interpreter is never crashed (SIGFPE)")
+    from .. import cdiv
+    nd = cdiv.division_rule(r9, cs)
+    chk.note_analysed("integer_division_sites", nd)
+    r9.require(20)
+
+    r10 = chk.rule("C19-R10", "real / complex sparse kernels (separate functions) address x, y and the CCS arrays with the same index expressions",
+                   "sparse products read and write only inside the documented footprints of their dense operands")
+    nk = cw.sibling_function_rule(r10, cs["sparse.c"], [
+        ("sp_daxpy", "sp_zaxpy"), ("sp_dgemv", "sp_zgemv"), ("sp_dsymv", "sp_zsymv"), ("spa_daxpy", "spa_zaxpy"),
+        ("spa_daxpy_partial", "spa_zaxpy_partial"), ("spa_ddot", "spa_zdot"), ("triplet2dccs", "triplet2zccs")])
+    chk.note_analysed("sparse_sibling_kernels", nk)
+    r10.require(7)
 
     r7 = chk.rule("C19-R7", "length / index / buffer macros have their reference definitions",
                   "guards and index wrapping mean what the rules above assume")
